@@ -208,7 +208,10 @@ def gen_user(rng):
             events.append({'tick': t, 'core': 0, 'kind': 'regime', 'regs': r2})
     events.sort(key=lambda e: e['tick'])
     core = {'config': cfg, 'devices': devices, 'regs': regs, 'words': words, 'force': None, 'no_poke': []}
-    return {'scenario': 'user_adversary', 'cores': [core], 'events': events, 'privonly': privonly, 'max_ticks': nt + 4, 'stop_at_done': False}
+    case = {'scenario': 'user_adversary', 'cores': [core], 'events': events, 'privonly': privonly, 'max_ticks': nt + 4, 'stop_at_done': False}
+    if rng.random() < 0.25:
+        case['predecessor'] = G.predecessor_for(rng, cfg)          # another processor with other extensions lived in this process before (machine.run_predecessor)
+    return case
 
 
 UNPRIV = ['ldrt', 'strt', 'ldrbt', 'strbt', 'ldrht', 'strht', 'ldrsbt', 'ldrsht']
@@ -302,8 +305,8 @@ def vmsa_ap_abort(ap, priv, write):
 
 
 def gen_unpriv_vmsa(rng):
-    cfg = {'arch_version': 7, 'have_security_ext': rng.random() < 0.5, 'have_virt_ext': False, 'have_lpae': False, 'memory_system_architecture': 'VMSA'}
-    thumb = rng.getrandbits(1)
+    cfg = {'arch_version': rng.choice([7, 7, 7, 6]), 'have_security_ext': rng.random() < 0.5, 'have_virt_ext': False, 'have_lpae': False, 'memory_system_architecture': 'VMSA'}
+    thumb = rng.getrandbits(1) if cfg['arch_version'] == 7 else 0
     mode = rng.choice(['svc', 'irq', 'fiq', 'abt', 'und', 'sys'] + (['mon'] if cfg['have_security_ext'] else []))
     devices = G.std_devices(rec_data=True)
     G.set_data(devices[2], 0, bytes(rng.getrandbits(8) for _ in range(0x400)))
@@ -350,7 +353,9 @@ def gen_unpriv_vmsa(rng):
             va, ap = VM_WIN + 0x1000 * j + off + mis, aps[j]
         tests.append(dict(unpriv_operands(rng), kind=kind, rn_val=va, ap=ap, dom=dom))
     dacr = 1 << (2 * dom_code) | (1 if dom_kind == 'client' else 3) << (2 * dom_test)
-    sys = {'sctlr': G.sctlr_value(m=1, a=0, u=1, te=thumb, tre=1, afe=0), 'prrr': 0x000AAAAA, 'nmrr': 0x40E040E0, 'ttbr0': VM_TABLES,       # TRE=0 ends in a declared-unimplemented hook
+    sys = {'sctlr': G.sctlr_value(m=1, a=0, u=1, te=thumb, tre=1, afe=0) | (rng.getrandbits(1) << 8 if cfg['arch_version'] == 6 else 0),      # ARMv6: the deprecated S bit
+           # (SCTLR.S=1, R=0 turns AP=0b000 into privileged read-only; for an UNPRIVILEGED access it stays 'no access', which is all these tests compare)
+           'prrr': 0x000AAAAA, 'nmrr': 0x40E040E0, 'ttbr0': VM_TABLES,       # TRE=0 ends in a declared-unimplemented hook
            'ttbr0_64': VM_TABLES, 'ttbr1': 0, 'ttbcr': 0, 'dacr': dacr}       # (the walker reads the 64-bit TTBR0 storage)
     cpsr = G.random_cpsr(rng, cfg, mode=mode, thumb=thumb) | 0x1C0
     R = G.random_regfile(rng, cfg)
@@ -437,13 +442,26 @@ USERVIS = set(['R%dusr' % i for i in range(13)] + ['SPusr', 'LRusr', 'PC'])
 SKIP_SYS = ('event_register',)
 
 
-def priv_snapshot(arm, privonly):
+def _sec(case):
+    return bool(M.full_config(case['cores'][0].get('config')).get('have_security_ext'))
+
+
+def priv_snapshot(arm, privonly, sec=False):
     r = arm.registers
     d = {'R.' + k: v for k, v in M.regs_dict(arm).items() if k not in USERVIS}
     for k, v in M.sys_state(arm).items():
         if k not in SKIP_SYS:
             d['sys.' + k] = v
     d['cpsr.AIFM'] = r.cpsr.value & 0x1DF
+    # ... and as the ACCESSORS see them: what Rmode[n, mode] returns for every privileged mode (a bank selection that quietly aliases another mode's
+    # SP onto the User copy leaves every raw register intact)
+    ns = sec and (r.scr.value & 1)
+    for mode in ((0x11,) if not (ns and (r.nsacr.value >> 19) & 1) else ()) + (0x12, 0x13, 0x17, 0x1b) + ((0x16,) if sec and not ns else ()):
+        for n in ((8, 9, 10, 11, 12, 13, 14) if mode == 0x11 else (13, 14)):
+            try:
+                d['acc.%d.%x' % (n, mode)] = r.get_rmode(n, mode)
+            except Exception:
+                pass
     for lo, hi in privonly:
         d['mem.%x' % lo] = M.peek(arm, lo, hi - lo)
     return d
@@ -468,7 +486,7 @@ class UserBoard(StreamBoard):
     def after_poke(self, ci):
         # the reference snapshot is taken after the board has placed this tick's word (which may land in a privileged-only page
         # when the PC has wandered there) and before anything executes
-        self.user_pre = priv_snapshot(self.cores[ci].arm, self.case.get('privonly', ()))
+        self.user_pre = priv_snapshot(self.cores[ci].arm, self.case.get('privonly', ()), _sec(self.case))
 
 
 class UserMonitor:
@@ -524,9 +542,9 @@ class UserMonitor:
             if len(taken) == 1 and not rec['nie']:
                 # ... and over the WHOLE step (instruction + entry) the only privileged state that may differ is what the entry itself writes: the masks and
                 # mode, the target mode's LR and SPSR (ELR_hyp / HSR for Hyp), the fault-reporting registers, bookkeeping
-                post_ = priv_snapshot(arm, b.case.get('privonly', ()))
+                post_ = priv_snapshot(arm, b.case.get('privonly', ()), _sec(b.case))
                 tm = {0x11: 'fiq', 0x12: 'irq', 0x13: 'svc', 0x16: 'mon', 0x17: 'abt', 0x1a: 'hyp', 0x1b: 'und'}.get(mode, '?')
-                ok_keys = set(('cpsr.AIFM', 'R.LR' + tm, 'sys.spsr_' + tm, 'sys.elr_hyp', 'sys.hsr', 'sys.hpfar') + FAULT_REGS)
+                ok_keys = set(('cpsr.AIFM', 'R.LR' + tm, 'acc.14.%x' % mode, 'sys.spsr_' + tm, 'sys.elr_hyp', 'sys.hsr', 'sys.hpfar') + FAULT_REGS)
                 d_ = [k for k in b.user_pre if b.user_pre[k] != post_.get(k) and k not in ok_keys and not M.is_bookkeeping(r, k[4:] if k.startswith('sys.') else '_R')]
                 if d_:
                     b.violate('user.confinement', opn, 'privileged_state_changed_by_excepting_step', 'User-mode %s (opcode %#x, cpsr %#x) took %s, and besides the entry changed: %s' % (
@@ -543,7 +561,7 @@ class UserMonitor:
                 b.violate('user.confinement', opn, 'ran_on_after_exception_entry', 'User-mode %s (opcode %#x): after the %s entry the step went on in mode %#x and changed %s' % (
                     opn, arm.opcode, taken[0], mode, regs or 'state'))
             return
-        post = priv_snapshot(arm, b.case.get('privonly', ()))
+        post = priv_snapshot(arm, b.case.get('privonly', ()), _sec(b.case))
         pre = b.user_pre
         diff = [k for k in pre if pre[k] != post.get(k)]
         if rec['nie']:
@@ -555,7 +573,7 @@ class UserMonitor:
         if diff:
             k = diff[0]
             cls = 'mode_or_mask_changed' if k == 'cpsr.AIFM' else ('priv_memory_written' if k.startswith('mem.') else
-                                                                   ('banked_register_changed' if k.startswith('R.') else 'sysreg_changed:' + k[4:]))
+                                                                   ('banked_register_changed' if k.startswith(('R.', 'acc.')) else 'sysreg_changed:' + k[4:]))
             if k.startswith('sys.spsr_'):
                 cls = 'spsr_changed'
             det = ', '.join('%s %s -> %s' % (x, _short(pre[x]), _short(post.get(x))) for x in diff[:3])
